@@ -32,6 +32,15 @@ class Zygote:
         self.requests += 1
         return out
 
+    def history(self, history):
+        """Run a whole history in a fork of the pristine zygote (used to minimise and to replay failing histories)."""
+        self.p.stdin.write(json.dumps({"history": history}) + "\n")
+        self.p.stdin.flush()
+        line = self.p.stdout.readline()
+        if not line:
+            raise RuntimeError("zygote died")
+        return json.loads(line)
+
     def close(self):
         try:
             self.p.stdin.close()
@@ -43,6 +52,7 @@ class Zygote:
 def _serve():
     import schwifty  # noqa: F401  - import only; no library call is made in the zygote itself
     from vlib import calls
+    base = calls.registry_snapshot()     # reads the registries built at import; no library call
     sys.stdout.write("READY\n")
     sys.stdout.flush()
     for line in sys.stdin:
@@ -55,7 +65,10 @@ def _serve():
         if pid == 0:
             try:
                 os.close(r)
-                data = json.dumps(calls.outcome(desc)).encode()
+                if "history" in desc:
+                    data = json.dumps(calls.run_history(desc["history"], base)).encode()
+                else:
+                    data = json.dumps(calls.outcome(desc)).encode()
                 os.write(w, data)
             finally:
                 os._exit(0)
